@@ -8,6 +8,12 @@ import gfapy
 from .obs import REF_FIELDS, line_key, safe_str, is_line
 
 
+def _rt(x):
+    """record type of a line for violation keys (placeholders of unknown type have type newline)."""
+    rt = x.record_type
+    return "placeholder" if rt == "\n" else rt
+
+
 def forward_targets(x):
     """list of (target, fieldname) for every Line object referenced by x's reference fields;
     strings found in reference fields are returned as (str, field)."""
@@ -87,12 +93,12 @@ def closed_symmetric(g):
         try:
             be = back_entries(t)
         except Exception as e:
-            bad.append(("unreadable-backrefs/%s/%s" % (t.record_type, type(e).__name__), safe_str(t)))
+            bad.append(("unreadable-backrefs/%s/%s" % (_rt(t), type(e).__name__), safe_str(t)))
             continue
         for y in be:
             if id(y) not in ids:
                 what = "disconnected" if not y.is_connected() else "unlisted"
-                bad.append(("dangling-backreference/%s<-%s/%s" % (t.record_type, y.record_type, what),
+                bad.append(("dangling-backreference/%s<-%s/%s" % (_rt(t), _rt(y), what),
                             "%s keeps a back-reference to %s line %s" % (safe_str(t), what, safe_str(y))))
                 continue
             bwd[(id(y), id(t))] = bwd.get((id(y), id(t)), 0) + 1
@@ -100,7 +106,7 @@ def closed_symmetric(g):
         a, b = fwd.get(k, 0), bwd.get(k, 0)
         if a != b:
             x, t = ids[k[0]], ids[k[1]]
-            bad.append(("asymmetric/%s->%s/%s" % (x.record_type, t.record_type,
+            bad.append(("asymmetric/%s->%s/%s" % (_rt(x), _rt(t),
                                                  "missing-backref" if a > b else "extra-backref"),
                         "%d reference(s) from %s to %s but %d back-reference(s)"
                         % (a, safe_str(x), safe_str(t), b)))
